@@ -23,6 +23,9 @@ RawInfer(nm, x) == [k |-> "infer", nm |-> nm, x |-> x]
 RawCall(f, xs, rt) == [k |-> "call", f |-> f, xs |-> xs, ty |-> rt, cn |-> FALSE]
 RawRet(x) == [k |-> "ret", xs |-> <<x>>]
 Prog(main, funcs) == [Program(main, funcs, <<>>) EXCEPT !.fl = TRUE]
+GDef(t) == FuncDef("g", <<>>, <<>>, t, <<[k |-> "ret", xs |-> <<Witness(t)>>]>>)
+\* the function g that "callresult" sources call
+WithG(s, funcs) == IF s.nm = "callresult" THEN funcs \o <<GDef(s.ty)>> ELSE funcs
 
 \* ---- value sources: [nm, pre, e, ty, cn]
 Src(nm, pre, e, cn) == [nm |-> nm, pre |-> pre, e |-> e, ty |-> e.ty, cn |-> cn]
@@ -62,7 +65,17 @@ InferredEmptyVar ==
     Src("infvar-mixed", <<SInfer("v", EMap(<<>>, <<>>))>>, EMap(<<K_k, <<106>>>>, <<EVar("v", TMap(T_any)), EMap(<<<<120>>>>, <<ENum(I(1))>>)>>), FALSE),
     Src("infvar-group", <<SInfer("v", EGrp(EArr(<<>>)))>>, EArr(<<EVar("v", TArr(T_any)), EArr(<<ENum(I(1))>>)>>), FALSE) }
 
+\* values derived from variables are variables: element / field of a variable, a function's return value,
+\* a loop variable (declared by the surrounding loop in pre/post), the result of a type assertion
+Derived(t) ==
+  { Src("varindex", <<SDecl("v", TArr(t))>>, EIdx(EVar("v", TArr(t)), ENum(I(0))), FALSE),
+    Src("vardot", <<SDecl("v", TMap(t))>>, EDot(EVar("v", TMap(t)), K_k), FALSE),
+    Src("varindex2", <<SDecl("v", TArr(TArr(t)))>>, EIdx(EIdx(EVar("v", TArr(TArr(t))), ENum(I(0))), ENum(I(0))), FALSE),
+    Src("assertion", <<SDecl("v", T_any)>>, EAssert(EVar("v", T_any), t), FALSE),
+    Src("callresult", <<>>, [k |-> "call", f |-> "g", xs |-> <<>>, ty |-> t, cn |-> FALSE], FALSE) }
+
 Sources == UNION {LitVar(t) : t \in {TArr(T_num), TMap(T_num), TArr(T_any), TArr(TArr(T_num))}} \cup InferredEmptyVar
+           \cup UNION {Derived(t) : t \in {T_num, TArr(T_num), TMap(T_num), TArr(T_str)}}
            \cup {VarSrc(t) : t \in Universe} \cup {LitSrc(t) : t \in Universe \ {T_any}} \cup Empties
            \cup UNION {ConstExprs(t) : t \in (Types1 \ {T_any}) \cup {TArr(TArr(T_num))}}
            \cup UNION {VarExprs(t) : t \in {T_num, TArr(T_num), TArr(T_any), TMap(T_num)}}
@@ -76,26 +89,29 @@ DynOf(ty) == IF Inferred(ty) = T_any THEN T_bool ELSE Inferred(ty)
 Shown(t, ty) == IF t = T_any THEN DynOf(ty) ELSE t
 Line(cp) == cp \o <<10>>
 
-AssignCell(t, s) == Cell("assign", s.nm, Prog(<<SDecl("x", t)>> \o s.pre \o <<RawAsg(X(t), s.e), Pr(<<TypeOf(X(t))>>)>>, <<>>),
+AssignCell(t, s) == Cell("assign", s.nm, Prog(<<SDecl("x", t)>> \o s.pre \o <<RawAsg(X(t), s.e), Pr(<<TypeOf(X(t))>>)>>, WithG(s, <<>>)),
                          Accepts(t, s.ty, s.cn), <<Line(TypeCps(Shown(t, s.ty)))>>)
-FieldCell(t, s) == Cell("field", s.nm, Prog(<<SDecl("m", TMap(t))>> \o s.pre \o <<RawAsg(EDot(EVar("m", TMap(t)), K_k), s.e), Pr(<<TypeOf(EDot(EVar("m", TMap(t)), K_k))>>)>>, <<>>),
+FieldCell(t, s) == Cell("field", s.nm, Prog(<<SDecl("m", TMap(t))>> \o s.pre \o <<RawAsg(EDot(EVar("m", TMap(t)), K_k), s.e), Pr(<<TypeOf(EDot(EVar("m", TMap(t)), K_k))>>)>>, WithG(s, <<>>)),
                         Accepts(t, s.ty, s.cn), <<Line(TypeCps(Shown(t, s.ty)))>>)
 ParamCell(t, s) == Cell("param", s.nm,
                         Prog(s.pre \o <<[k |-> "callst", x |-> RawCall("f", <<s.e>>, T_none)]>>,
-                             <<FuncDef("f", <<Param("p", t)>>, <<>>, T_none, <<Pr(<<TypeOf(EVar("p", t))>>)>>)>>),
+                             WithG(s, <<FuncDef("f", <<Param("p", t)>>, <<>>, T_none, <<Pr(<<TypeOf(EVar("p", t))>>)>>)>>)),
                         Accepts(t, s.ty, s.cn), <<Line(TypeCps(Shown(t, s.ty)))>>)
 VariadicCell(t, s) == Cell("variadic", s.nm,
                            Prog(s.pre \o <<[k |-> "callst", x |-> RawCall("f", <<s.e, s.e>>, T_none)]>>,
-                                <<FuncDef("f", <<>>, <<Param("ps", t)>>, T_none, <<Pr(<<TypeOf(EVar("ps", TArr(t)))>>)>>)>>),
+                                WithG(s, <<FuncDef("f", <<>>, <<Param("ps", t)>>, T_none, <<Pr(<<TypeOf(EVar("ps", TArr(t)))>>)>>)>>)),
                            Accepts(t, s.ty, s.cn), <<Line(TypeCps(TArr(t)))>>)
 ReturnCell(t, s) == Cell("return", s.nm,
                          Prog(s.pre \o <<Pr(<<TypeOf(RawCall("f", <<>>, t))>>)>>,
-                              <<FuncDef("f", <<>>, <<>>, t, <<RawRet(s.e)>>)>>),
+                              WithG(s, <<FuncDef("f", <<>>, <<>>, t, <<RawRet(s.e)>>)>>)),
                          Accepts(t, s.ty, s.cn), <<Line(TypeCps(Shown(t, s.ty)))>>)
-InferCell(s) == Cell("infer", s.nm, Prog(s.pre \o <<RawInfer("x", s.e), Pr(<<TypeOf(X(Inferred(s.ty)))>>)>>, <<>>),
+InferCell(s) == Cell("infer", s.nm, Prog(s.pre \o <<RawInfer("x", s.e), Pr(<<TypeOf(X(Inferred(s.ty)))>>)>>, WithG(s, <<>>)),
                      TRUE, <<Line(TypeCps(Shown(Inferred(s.ty), s.ty)))>>)
 
-ContextCells == UNION {{AssignCell(t, s), FieldCell(t, s), ParamCell(t, s), VariadicCell(t, s), ReturnCell(t, s)} : t \in Universe, s \in Sources}
+\* quick tier: every source against every target in the assignment context; the other contexts on fewer targets
+Universe2 == IF Tier = "quick" THEN {T_num, T_any, TArr(T_num), TArr(T_any), TMap(T_any), TArr(TArr(T_any))} ELSE Universe
+ContextCells == UNION {{AssignCell(t, s)} : t \in Universe, s \in Sources}
+                \cup UNION {{FieldCell(t, s), ParamCell(t, s), VariadicCell(t, s), ReturnCell(t, s)} : t \in Universe2, s \in Sources}
                 \cup {InferCell(s) : s \in Sources}
 
 \* ---- operators, index, slice, field, assertion, condition, range on variables of given types
